@@ -326,10 +326,22 @@ func ZZ_C08_C() {
 		}
 	case 9: // pre-commitments
 		var cs []*crypto.Key
-		for i := vr.Choose(1, 3); i > 0; i-- {
+		n := vr.Choose(1, 4)
+		if n == 4 {
+			// the largest list the builder emits (it panics above 1024): the parser must take it back
+			n = 1024
 			k := zzKey()
 			vr.Assume(k.CheckKey())
-			cs = append(cs, &k)
+			for i := 0; i < n; i++ {
+				cs = append(cs, &k)
+			}
+			vr.Cover("pre-commitments-at-the-builder-limit")
+		} else {
+			for i := n; i > 0; i-- {
+				k := zzKey()
+				vr.Assume(k.CheckKey())
+				cs = append(cs, &k)
+			}
 		}
 		msg, err := parseNetworkMessage(2, buildCommitmentsMessage(h, cs))
 		vr.Assert(err == nil, "pre-commitments-parse")
